@@ -5,7 +5,8 @@
    Relabel_total_proofs.v, Fl64_mono_proofs.v, Relabel_plain_proofs.v, Relabel_plain2_proofs.v,
    Relabel_renumber_proofs.v, Relabel_guard_proofs.v, Relabel_sparse_proofs.v, Fl64_err_proofs.v,
    Relabel_spread_proofs.v, Relabel_block_proofs.v, Relabel_adjbisect_proofs.v,
-   Relabel_widespread_proofs.v, Relabel_levels_proofs.v.
+   Relabel_widespread_proofs.v, Relabel_levels_proofs.v, Relabel_single_proofs.v,
+   Relabel_getkey_proofs.v, Relabel_widegap_proofs.v.
 
    [Spec orig keys adj ins] is the property's postcondition for one call (Model/Relabel.v): adjustments name
    existing rows once each with finite values; existing rows keep their order (strictly where they were
@@ -21,7 +22,8 @@ Require Import Grist.Proofs.Fl64_proofs Grist.Proofs.Fl64_mono_proofs Grist.Proo
                Grist.Proofs.Relabel_renumber_proofs Grist.Proofs.Relabel_guard_proofs
                Grist.Proofs.Relabel_sparse_proofs Grist.Proofs.Fl64_err_proofs Grist.Proofs.Relabel_spread_proofs
                Grist.Proofs.Relabel_block_proofs Grist.Proofs.Relabel_adjbisect_proofs
-               Grist.Proofs.Relabel_widespread_proofs Grist.Proofs.Relabel_levels_proofs.
+               Grist.Proofs.Relabel_widespread_proofs Grist.Proofs.Relabel_levels_proofs Grist.Proofs.Relabel_single_proofs
+               Grist.Proofs.Relabel_getkey_proofs Grist.Proofs.Relabel_widegap_proofs.
 Open Scope Z_scope.
 
 (* ---- 1. the certified checker: for ALL inputs and ALL candidate results, acceptance implies the
@@ -198,8 +200,9 @@ Proof. exact find_sparse_finds. Qed.
    strictly inside it. *)
 Theorem C20_adjust_range_keys_strict_partial : forall u i c,
   0 < u -> 2 * u < UOVER -> 1 <= i <= 52 -> 1 <= c -> sparse_enough i (c + 1) ->
-  exists rb re, range_around u i = Some (FFin false rb, FFin false re) /\ rb <= u < re /\
-    StronglySorted Flt (FFin false rb :: get_range (FFin false rb) (FFin false re) c ++ [FFin false re]).
+  exists rb re, range_around u i = Some (FFin false rb, FFin false re) /\ 0 <= rb <= u /\ u < re /\
+    StronglySorted Flt (FFin false rb :: get_range (FFin false rb) (FFin false re) c ++ [FFin false re]) /\
+    Forall posfin (get_range (FFin false rb) (FFin false re) c).
 Proof. exact adjust_range_keys_strict. Qed.
 (* (P-a'') ... and at EVERY level 1 <= i < 64, around every double 0 <= u < 2^1012: whenever the number of keys c
    passed the density test of the level ("c < thresh", either threshold sequence), range_around_float returns a
@@ -209,8 +212,9 @@ Proof. exact adjust_range_keys_strict. Qed.
 Theorem C20_levels_keys_strict_partial : forall u (i : nat) frac c,
   0 <= u < 2 ^ 2086 -> (0 < u -> u mod 2 ^ ulp_exp u = 0) -> (1 <= i < 64)%nat -> frac = f114 \/ frac = f130 ->
   1 <= c < 2 ^ 53 -> flt (of_Z c) (thr frac i) = true ->
-  exists rb re, range_around u (Z.of_nat i) = Some (FFin false rb, FFin false re) /\ rb <= u < re /\
-    StronglySorted Flt (FFin false rb :: get_range (FFin false rb) (FFin false re) c ++ [FFin false re]).
+  exists rb re, range_around u (Z.of_nat i) = Some (FFin false rb, FFin false re) /\ 0 <= rb <= u /\ u < re /\
+    StronglySorted Flt (FFin false rb :: get_range (FFin false rb) (FFin false re) c ++ [FFin false re]) /\
+    Forall posfin (get_range (FFin false rb) (FFin false re) c).
 Proof. exact levels_keys_strict. Qed.
 (* (P-d) _adj_bisect_key_left is exact -- it returns the number of rows of the adjusted list V below the key --
    whenever the adjustments are sorted by index, V is the existing list with them applied, both lists are sorted,
@@ -231,6 +235,55 @@ Theorem C20_adj_bisect_exact_partial : forall (orig V : list fl) (al : list (Z *
   (0 < a -> flt (nthZ orig (idx (a - 1)) FNaN) q = false -> (if a <? m then idx a else n) = idx (a - 1) + 1) ->
   adj_bisect_key_left orig (mkwl al inss) q = bkl V q.
 Proof. intros. apply adj_bisect_exact; assumption. Qed.
+
+(* (P-e) ASSEMBLED for calls whose requests all fall into ONE gap (every request has the same bisect_left index g
+   -- e.g. any single AddRecord, or a batch inserted at one place): C20_partial_correctness_stmt holds, including
+   the partial renumbering path.  Existing positions valid (positive doubles below 2^1012, strictly increasing),
+   neighbours of the gap valid (begin >= 0, end > 0, finite, begin < end): WHATEVER the model returns satisfies Spec.
+   The proof follows the code: get_range; if is_valid_range fails, the range found by _find_sparse_enough_range is
+   a level's range that passed the density test (inversion of the search), its new keys are strictly increasing
+   inside it (P-a''), _adjust_range renumbers exactly the rows bisected by the range ends and all new keys in the
+   order rows-below, new keys, rows-above (the sort of (key, is_insert, index) triples and the remove/add loop on the
+   two sorted containers are followed step by step), and the adjusted list stays strictly sorted around it. *)
+Theorem C20_partial_correctness_one_gap_partial : forall (orig keys : list fl) (g : nat),
+  Pre orig keys -> Forall wf_fl orig ->
+  Forall (fun x => exists u, x = FFin false u /\ 0 < u < 2 ^ 2086) orig -> StronglySorted Flt orig ->
+  lenZ orig + lenZ keys + 1 < 2 ^ 53 -> keys <> [] ->
+  (forall k, In k keys -> bkl orig k = Z.of_nat g) ->
+  flt (group_begin orig (Z.of_nat g)) fzero || fle (group_end orig (Z.of_nat g) (Z.of_nat (length keys))) fzero ||
+    is_inf (fmax (group_begin orig (Z.of_nat g)) (group_end orig (Z.of_nat g) (Z.of_nat (length keys)))) = false ->
+  flt (group_begin orig (Z.of_nat g)) (group_end orig (Z.of_nat g) (Z.of_nat (length keys))) = true ->
+  forall adj ins, prepare_inserts_model orig keys = Ok (adj, ins) -> Spec orig keys adj ins.
+Proof. exact single_gap_correct. Qed.
+
+(* (P-f) _adj_get_key (bisect.bisect_left over the adjustments compared as (index, key) tuples, the C loop modelled
+   step by step) reads the adjusted list, whenever the adjustments are sorted by index and in range. *)
+Theorem C20_adj_get_key_partial : forall orig al inss (j : nat),
+  StronglySorted idx_lt al -> Forall (fun q => 0 <= fst q < lenZ orig) al -> (j < length orig)%nat ->
+  adj_get_key orig (mkwl al inss) (Z.of_nat j) = nth j (apply_adj orig al) FNaN.
+Proof. exact adj_get_key_virtual. Qed.
+(* (P-g) a wide gap is never crowded: between doubles 0 <= b < e with e >= 2^-1020 and e >= 4 b, up to 2^24 - 1 keys
+   spread by get_range are strictly increasing inside (b, e) (four roundings, by error bounds).  Hence
+   prep_inserts_at_index renumbers only when end < 4 * max(begin, 2^-1022), which bounds the level at which a
+   range containing end exists. *)
+Theorem C20_wide_gap_valid_partial : forall ub ue c,
+  0 <= ub -> ue mod 2 ^ ulp_exp ue = 0 -> 2 ^ 54 <= ue -> 4 * ub <= ue -> ue < UOVER -> 1 <= c -> c + 1 <= 2 ^ 24 ->
+  StronglySorted Flt (FFin false ub :: get_range (FFin false ub) (FFin false ue) c ++ [FFin false ue]).
+Proof. exact wide_gap_strict. Qed.
+(* (P-h) ASSEMBLED: C20_total_restricted_stmt for calls whose requests all fall into one gap BEFORE AN EXISTING ROW
+   (any single AddRecord above a row, any batch inserted at one place): existing positions valid (positive doubles
+   below 2^1012, strictly increasing), fewer than 2^20 rows in all.  No exception and Spec -- on the plain path AND
+   on the partial renumbering path: the first assertion cannot fire (P-first-assert), every level counts at least
+   one key and does not overflow, a range is found at the latest at level 55 because a crowded gap is narrow (P-g)
+   and 2^20 < 1.3^55 (P-c), its keys are strictly increasing (P-a''), _adjust_range renumbers the right rows (P-e),
+   _adj_get_key then reads the adjusted neighbours (P-f) and the final assertion holds. *)
+Theorem C20_total_one_gap_partial : forall orig keys (g : nat),
+  Pre orig keys -> Forall wf_fl orig ->
+  Forall (fun x => exists u, x = FFin false u /\ 0 < u < 2 ^ 2086) orig -> StronglySorted Flt orig ->
+  lenZ orig + lenZ keys < 2 ^ 20 -> keys <> [] ->
+  (forall k, In k keys -> bkl orig k = Z.of_nat g) -> (g < length orig)%nat ->
+  exists adj ins, prepare_inserts_model orig keys = Ok (adj, ins) /\ Spec orig keys adj ins.
+Proof. exact one_gap_total. Qed.
 
 (* Proved: total correctness (no exception AND Spec) on the paths that do not renumber partially.
    (i) Appending: the last existing position (0.0 for an empty table) is an integer b,
@@ -336,6 +389,21 @@ Example C20_spread_nonvacuous :
 Proof.
   split; [apply sparse_enoughb_sound; vm_compute; reflexivity|].
   split; [apply Z.leb_le; vm_compute; reflexivity|]. split; [apply Z.leb_le; vm_compute; reflexivity | vm_compute; reflexivity].
+Qed.
+
+(* non-vacuity of (P-e): the former counterexample (e): two adjacent doubles, one request between them; the model
+   returns adjustments for both rows, and the hypotheses of (P-e) hold *)
+Example C20_one_gap_nonvacuous :
+  let orig := [decode 4607182418800017664; decode 4607182418800017665] in let keys := [decode 4607182418800017665] in
+  Pre orig keys /\ Forall wf_fl orig /\ StronglySorted Flt orig /\ (forall k, In k keys -> bkl orig k = Z.of_nat 1) /\
+  flt (group_begin orig 1) (group_end orig 1 1) = true /\
+  exists adj ins, prepare_inserts_model orig keys = Ok (adj, ins) /\ length adj = 2%nat.
+Proof.
+  cbv zeta. split; [apply check_pre_sound; vm_compute; reflexivity|].
+  split; [repeat (constructor; [apply wf_flb_sound; vm_compute; reflexivity|]); constructor|].
+  split; [repeat constructor; vm_compute; reflexivity|].
+  split; [intros k [<-|[]]; vm_compute; reflexivity|].
+  split; [vm_compute; reflexivity|]. eexists. eexists. split; [vm_compute; reflexivity | reflexivity].
 Qed.
 
 Example C20_history_nonvacuous :
